@@ -707,8 +707,52 @@ func (fr *freshness) loadFresh(ld *ssa.UnOp, seen map[ssa.Value]bool) string {
 		}
 		return ""
 	}
+	// a field of an object that is itself fresh, when every store to that field anywhere in the module stores
+	// a fresh value (or the field's own content appended to): a collector object built during the call
+	if fa, ok := ld.X.(*ssa.FieldAddr); ok {
+		fk := fieldOf(fa)
+		if m := fr.notFresh(fa.X, seen); m != "" {
+			return "field " + fk.Field + " of an object that " + m
+		}
+		n := 0
+		for _, pk := range libPkgs(fr.p) {
+			for _, g := range fr.p.AllModuleFuncs(pk) {
+				for _, b := range g.Blocks {
+					for _, in := range b.Instrs {
+						st, ok := in.(*ssa.Store)
+						if !ok {
+							continue
+						}
+						sfa, ok := st.Addr.(*ssa.FieldAddr)
+						if !ok || fieldOf(sfa) != fk {
+							continue
+						}
+						n++
+						val := st.Val
+						// self-append: append(*(&x.f), …)
+						if c, ok := val.(*ssa.Call); ok {
+							if bi, ok := c.Call.Value.(*ssa.Builtin); ok && bi.Name() == "append" {
+								if l2, ok := c.Call.Args[0].(*ssa.UnOp); ok && l2.Op == token.MUL {
+									if fa2, ok := l2.X.(*ssa.FieldAddr); ok && fieldOf(fa2) == fk {
+										continue
+									}
+								}
+							}
+						}
+						if m := fr.notFresh(val, seen); m != "" {
+							return "field " + fk.Field + " is assigned a value that " + m
+						}
+					}
+				}
+			}
+		}
+		if n > 0 {
+			return ""
+		}
+	}
 	return "loaded from memory whose origin is not tracked"
 }
+
 
 func (fr *freshness) callFresh(c *ssa.Call, idx int, seen map[ssa.Value]bool) string {
 	p := fr.p
